@@ -325,6 +325,13 @@ fn parts(tier: Tier) -> Vec<PartDef> {
     let mlen = tier.pick(4usize, 5usize);
     vec![
         PartDef::new(
+            "decoration-in-histories",
+            Cfg::new("C03/decoration-in-histories"),
+            json!({"driver": "the C08 history harness (the half of its histories that runs with the real CUP handler): checks of 15 classes, pings with 4 answers, end of wait, restarts", "history_length": format!("0..{}", tier.pick(3, 4)),
+                   "oracle": "every request decorated with one fresh cup2key; installer metadata belongs to the answered request", "exploration": "full product"}),
+            move |ctx| crate::props::c08::run_judged_by(ctx, tier.pick(3, 4), false, &|log, cup, bad_url| if cup && !bad_url { judge_wire(log, "http://omaha.example/service/update") } else { Ok(()) }),
+        ),
+        PartDef::new(
             "menu-histories",
             Cfg::new("C03/menu-histories"),
             json!({"length": mlen, "step_menu": ["no-update check", "installed update (optionally with reboot wait, ping, reboot)", "install after 1-2 failed attempts", "transport failure x3", "HTTP 500 x3", "unparseable answer", "forged answer", "deferred by policy", "restart"],
